@@ -16,10 +16,10 @@ def _wrap_solver():
     orig = z3.Solver.check
 
     def chk(self, *a):
-        t = time.time()
+        t = time.perf_counter()  # not time.time(): CrossHair models that one as a symbolic value while tracing
         r = orig(self, *a)
         _CNT["n"] += 1
-        _CNT["t"] += time.time() - t
+        _CNT["t"] += time.perf_counter() - t
         return r
     z3.Solver.check = chk
     _WRAPPED = True
@@ -32,9 +32,9 @@ def run_contract(fn, per_condition_timeout=120, per_path_timeout=30):
     from crosshair.options import AnalysisOptionSet
     opts = AnalysisOptionSet(per_condition_timeout=per_condition_timeout, report_all=True, max_uninteresting_iterations=10 ** 9, per_path_timeout=per_path_timeout)
     n0, t0 = _CNT["n"], _CNT["t"]
-    w0 = time.time()
+    w0 = time.perf_counter()
     msgs = list(run_checkables(analyze_function(fn, opts)))
-    out = {"queries": _CNT["n"] - n0, "solver_s": round(_CNT["t"] - t0, 3), "seconds": round(time.time() - w0, 2), "messages": []}
+    out = {"queries": _CNT["n"] - n0, "solver_s": round(_CNT["t"] - t0, 3), "seconds": round(time.perf_counter() - w0, 2), "messages": []}
     states = []
     for m in msgs:
         st = m.state.name if hasattr(m.state, "name") else str(m.state)
